@@ -27,7 +27,7 @@ def doLincomb (l : Line) : Option String := do
     | 1 => a1.getD i 0
     | _ => a2.getD i 0
   match lincombImpl Gen.Lincomb.thrSmall Gen.Lincomb.thrMedium Gen.Lincomb.fbGuard
-      Gen.Lincomb.prog size blas ⟨x1, x2, out⟩ a b mem with
+      Gen.Lincomb.zeroGuard Gen.Lincomb.prog size blas ⟨x1, x2, out⟩ a b mem with
   | none => some "err:depth"
   | some m' =>
     let dump (b : Nat) := showCList ((List.range n).map (m' b))
@@ -64,7 +64,7 @@ def doElem (l : Line) : Option String := do
 
 def tensorLC (size : Nat) (blas : Bool) : LC CRat := fun A a b m =>
   lincombImpl Gen.Lincomb.thrSmall Gen.Lincomb.thrMedium Gen.Lincomb.fbGuard
-    Gen.Lincomb.prog size blas A a b m
+    Gen.Lincomb.zeroGuard Gen.Lincomb.prog size blas A a b m
 
 def memOf (bufs : List (List CRat)) : Mem CRat :=
   let arrs := bufs.toArray.map (·.toArray)
